@@ -473,7 +473,8 @@ func (g *vGen) next(step int, st map[string]interface{}) *vEntry {
 		case 0:
 			e.Data = "MODE " + c
 		case 1:
-			e.Data = fmt.Sprintf("MODE %s %s", c, pick(r, []string{"+i", "-i", "+s", "-s", "+t", "-t", "+n", "-n", "+x", "-x", "+it", "-it+s", "+z"}))
+			e.Data = fmt.Sprintf("MODE %s %s", c, pick(r, []string{"+i", "-i", "+s", "-s", "+t", "-t", "+n", "-n", "+x", "-x", "+it", "-it+s", "+z",
+				"+b-t", "+b+i", "-t+b", "+z-t", "-k+b", "+b-k", "+b-n+s"}))
 		case 2, 3:
 			e.Data = fmt.Sprintf("MODE %s %s %s", c, pick(r, []string{"+o", "-o", "+oo"}), memberOrNick())
 		case 4, 5:
@@ -535,7 +536,7 @@ func (g *vGen) next(step int, st map[string]interface{}) *vEntry {
 		e.Data = fmt.Sprintf("GLINE %s :%s", anyNick(), pick(r, []string{"spam", ""}))
 	case 39, 40, 41:
 		e.Data = pick(r, []string{"OPER op pw", "OPER op wrong", "OPER nobody pw", "OPER op"})
-	case 42:
+	case 42, 56, 57:
 		e.Data = "AWAY :" + pick(r, []string{"gone", "", "brb soon"})
 	case 43:
 		e.Data = pick(r, []string{"NAMES " + anyChan(), "NAMES"})
@@ -607,7 +608,7 @@ func (g *vGen) warmup() []*vEntry {
 		es = append(es, &vEntry{T: "line", Sess: sess, Data: "NICK " + nicks[k], Sup: true, Conf: true, Addr: pick(r, []string{"", "a1", "a2"})})
 		es = append(es, &vEntry{T: "line", Sess: sess, Data: fmt.Sprintf("USER u%d 0 * :Real %d", k+1, k+1), Sup: true, Conf: true})
 		if r.Intn(2) == 0 {
-			es = append(es, &vEntry{T: "line", Sess: sess, Data: "JOIN " + pick(r, []string{"#a", "#b", "#a,#b"}), Sup: true, Conf: true})
+			es = append(es, &vEntry{T: "line", Sess: sess, Data: "JOIN " + pick(r, []string{"#a", "#b", "#a,#b", "#Chan", "#A", "#Chan,#b"}), Sup: true, Conf: true})
 		}
 	}
 	return es
